@@ -58,6 +58,12 @@ CHECKS = {
                      "and a handled error either propagates leaving pre-state / success-state / check()-detectable state or the call's result equals a fault-free run.",
                 note="Trusted: MemFS model incl. shutil.copytree/rmtree expansions (validated against tmpfs on every run; counterexamples replayed on the real FS). Outside: ENOENT faults, power loss, h5py.",
                 ref="DESIGN.md §4 C11"),
+    "C09": dict(tech="SMT-backed symbolic execution (CrossHair+z3) of the real check / repair / open-by-id code on an in-memory POSIX model with symbolic damage (victims, kind, byte offset, byte class, cache presence)",
+                text="Bounded proof: for a 3-job project (flat, nested, non-ASCII state points), any victim subset, truncation at every offset, single-byte replacement at every offset by 10 byte classes, deletion, foreign file, other valid JSON, "
+                     "==-equal-but-different JSON and directory rename, with and without a persistent cache: check() names exactly the independently classified damaged jobs, open_job(id).statepoint() in a fresh session never returns a value that does not hash to the id, "
+                     "repair() restores every recoverable job, check() afterwards matches the classification, and no document or data file changes.",
+                note="Trusted: MemFS (validated against tmpfs on every run; counterexamples replayed on the real FS); the independent damage classification (refs.canon_id). Outside: multi-byte damage, swapped directories.",
+                ref="DESIGN.md §4 C09"),
 }
 NOT_YET = {}
 
